@@ -9,7 +9,7 @@ use serde_json::{json, Value};
 use txtpp::{Config, Mode, Verbosity};
 
 const DIRS: [&str; 3] = ["", "sub", "sub/deep"];
-const STYLES: usize = 6;
+const STYLES: usize = 7;
 
 fn src_name(i: usize) -> String {
     match i {
@@ -111,6 +111,15 @@ impl PSpec {
                     s.push_str(&format!("\tTXTPP#include {r}\n"));
                 }
                 s.push_str(&format!("{x}t"));
+            }
+            6 => {
+                // after the dependencies: multi-line directives whose continuation lines look like directives
+                // (an include of this file's own output, a prefix-less run) - they are text, not directives
+                s.push_str(&format!("{x}h\n"));
+                for r in &deps {
+                    s.push_str(&format!("TXTPP#include {r}\n"));
+                }
+                s.push_str(&format!("-TXTPP#write esc\n-TXTPP#include {}\n/* TXTPP#write esc2\n   TXTPP#run true\n{x}t\n", out_name(i)));
             }
             _ => {
                 s.push_str(&format!("# TXTPP#write {x}a\n# {x}b\n#\n"));
@@ -264,7 +273,7 @@ pub fn run_into(rep: &Report) {
     let n_max = if rep.thorough() { 3 } else { 2 };
     let sp = specs(n_max);
     rep.set("multi_file_projects", json!(sp.len()));
-    rep.set("multi_file_bounds", json!(format!("all include DAGs on <= {n_max} files x each file in ., sub/, sub/deep/ x 6 body styles x three source-name shapes x CRLF in the middle file; inputs = directory (recursive) and the root by output name; Build and InMemoryBuild")));
+    rep.set("multi_file_bounds", json!(format!("all include DAGs on <= {n_max} files x each file in ., sub/, sub/deep/ x 7 body styles x three source-name shapes x CRLF in the middle file; inputs = directory (recursive) and the root by output name; Build and InMemoryBuild")));
     sharded_dyn(rep, par_threads(), |_k, _n, next, rep| {
         let scratch = Scratch::new();
         loop {
